@@ -15,6 +15,7 @@ import fieldutil as F
 import implutil as U
 
 STATIC = ["Model/Sev.vo"]
+EXTRA_PROPS = ["RK"]
 IMPORTS = "From SSP Require Import Model.Pk Model.Lifetime Model.Bins Model.Sev."
 
 
